@@ -200,11 +200,7 @@ pub fn run_c11(cfg: &Cfg) -> (Part, Value, bool) {
     // integer -> vector
     let mut nats: Vec<Nat> = Vec::new();
     nats.extend(enumr::all_of(NatTy::U8));
-    if q {
-        nats.extend(enumr::all_of(NatTy::U16).into_iter().step_by(1).filter(|n| n.val() < 1024 || n.val() > 65535 - 1024 || n.val().count_ones() <= 2 || (!n.val() & 0xffff).count_ones() <= 2));
-    } else {
-        nats.extend(enumr::all_of(NatTy::U16));
-    }
+    nats.extend(enumr::all_of(NatTy::U16));
     for ty in [NatTy::U32, NatTy::U64, NatTy::U128, NatTy::Us] {
         nats.extend(enumr::ul(ty));
     }
@@ -262,7 +258,7 @@ pub fn run_c11(cfg: &Cfg) -> (Part, Value, bool) {
     }
     // vector -> integer
     for &k in ALL_KINDS {
-        let b = if k.word() == 8 { if q { 10 } else { 12 } } else if q { 6 } else { 9 };
+        let b = crate::convs::full_b(k, if q { 16 } else { 20 }, if q { 9 } else { 12 });
         let dom = standard_domain(&mut part, &seen, k, b, if q { 2 } else { 3 }, q);
         let p = crate::convs::par_over(cfg, &dom, 64, &format!("C11 {}->int", k.name()), |p, x| {
             let m = x.v.bits();
@@ -286,7 +282,7 @@ pub fn run_c11(cfg: &Cfg) -> (Part, Value, bool) {
     let (n, ms) = chk_bit_conv();
     part.transitions += n;
     record(&mut part, "bit_conv", "Bit", "-", vec![], &|| "bit_conv".to_string(), ms);
-    (part, json!({"int_to_vector": {"u8": "complete", "u16": if q { "boundary subset (complete in thorough)" } else { "complete" }, "wider": "UL lattice", "forms": "by value and by reference", "targets": "all 17 kinds"},
+    (part, json!({"int_to_vector": {"u8": "complete", "u16": "complete", "wider": "UL lattice", "forms": "by value and by reference", "targets": "all 17 kinds"},
         "slices": {"u8": "0,1 elements complete, 2 elements grid", "others": "lattice elements, 0..5 elements"},
         "vector_to_int": "standard domain of every kind x six integer types x by value/by reference", "bit": "u8,u16 complete, lattice for wider, bool"}), true)
 }
@@ -345,7 +341,7 @@ pub fn run_c12(cfg: &Cfg) -> (Part, Value, bool) {
     let seen_ref = &seen;
     let mut pairs = 0;
     for &k in ALL_KINDS {
-        let b = if k.word() == 8 { if q { 8 } else { 12 } } else if q { 5 } else { 8 };
+        let b = crate::convs::full_b(k, if q { 15 } else { 19 }, if q { 8 } else { 11 });
         let mut dom = standard_domain(&mut part, &seen, k, b, if q { 2 } else { 3 }, q);
         // source lengths at C_target-1, C_target, C_target+1 for every target
         let mut extra: std::collections::BTreeSet<usize> = std::collections::BTreeSet::new();
@@ -736,10 +732,10 @@ pub fn run_c13(cfg: &Cfg) -> (Part, Value, bool) {
         part.require(r);
     }
     let seen_ref = &seen;
-    let wscripts = scripts(3, if q { 1 } else { 2 });
+    let wscripts = scripts(3, 2);
     // to_vec / write / round trips
     for &k in ALL_KINDS {
-        let b = if k.word() == 8 { if q { 10 } else { 14 } } else if q { 6 } else { 9 };
+        let b = crate::convs::full_b(k, if q { 15 } else { 19 }, if q { 8 } else { 11 });
         let dom = standard_domain(&mut part, &seen, k, b, if q { 2 } else { 3 }, q);
         let ws = &wscripts;
         let p = crate::convs::par_over(cfg, &dom, 64, &format!("C13 to_vec/write {}", k.name()), |p, x| {
@@ -775,7 +771,7 @@ pub fn run_c13(cfg: &Cfg) -> (Part, Value, bool) {
     }
     // from_bytes / read
     let strings = byte_strings(q);
-    let rscripts = scripts(3, if q { 1 } else { 2 });
+    let rscripts = scripts(3, 2);
     for &k in ALL_KINDS {
         let rs = &rscripts;
         let p = crate::convs::par_over(cfg, &strings, 64, &format!("C13 from_bytes/read {}", k.name()), |p, bytes| {
@@ -831,7 +827,7 @@ pub fn run_c13(cfg: &Cfg) -> (Part, Value, bool) {
     }
     (part, json!({"byte_strings": strings.len(), "byte_string_rule": "all strings of <= 2 bytes (grid in quick), six patterns at 3..33 bytes",
         "read_lengths": "every len with ceil(len/8) <= |bytes|+1 for <= 2 bytes; boundary lens beyond", "io_scripts": rscripts.len(),
-        "io_script_rule": "all answer scripts over {short 1, short 2, Interrupted, hard error, EOF/zero} with at most 1 (quick) / 2 (thorough) deviations from the default answer within the first 3 calls"}), true)
+        "io_script_rule": "all answer scripts over {short 1, short 2, Interrupted, hard error, EOF/zero} with at most 2 deviations from the default answer within the first 3 calls"}), true)
 }
 
 // ------------------------------------------------------------------------------------------------
@@ -887,7 +883,7 @@ pub fn run_c14(cfg: &Cfg) -> (Part, Value, bool) {
     }
     let mut desc = Vec::new();
     for &k in ALL_KINDS {
-        let b = if k.word() == 8 { if q { 9 } else { 12 } } else if q { 6 } else { 9 };
+        let b = crate::convs::full_b(k, if q { 14 } else { 18 }, if q { 9 } else { 12 });
         let dom = standard_domain(&mut part, &seen, k, b, if q { 2 } else { 3 }, q);
         desc.push(json!({"kind": k.name(), "subjects": dom.len()}));
         let p = crate::convs::par_over(cfg, &dom, 32, &format!("C14 {}", k.name()), |p, x| {
@@ -1002,10 +998,10 @@ pub fn run_c15(cfg: &Cfg) -> (Part, Value, bool) {
         part.require(r);
     }
     let seen_ref = &seen;
-    let mut bin: Vec<String> = strings_over(&['0', '1'], if q { 8 } else { 12 });
-    bin.extend(strings_over(&['0', '1', '2', 'x', 'é'], if q { 4 } else { 5 }));
+    let mut bin: Vec<String> = strings_over(&['0', '1'], if q { 11 } else { 15 });
+    bin.extend(strings_over(&['0', '1', '2', 'x', 'é'], if q { 5 } else { 6 }));
     let hexchars: Vec<char> = "0123456789abcdefABCDEF".chars().collect();
-    let mut hx: Vec<String> = strings_over(&hexchars, if q { 2 } else { 3 });
+    let mut hx: Vec<String> = strings_over(&hexchars, 3);
     hx.extend(strings_over(&['0', 'f', 'A', 'g', ' ', 'é', '１'], 4));
     // characters that alias a valid digit under a narrowing cast or a case/width fold: code point
     // = digit + 0x80, + 0x100, + 0x10000, the full-width forms, and neighbours of the digit ranges
@@ -1100,7 +1096,7 @@ pub fn run_c15(cfg: &Cfg) -> (Part, Value, bool) {
             });
             part = part.merge(p);
         }
-        let b = if k.word() == 8 { if q { 9 } else { 12 } } else if q { 6 } else { 9 };
+        let b = crate::convs::full_b(k, if q { 15 } else { 19 }, if q { 9 } else { 12 });
         let dom = standard_domain(&mut part, &seen, k, b, 2, q);
         let p = crate::convs::par_over(cfg, &dom, 64, &format!("C15 round trip {}", k.name()), |p, x| {
             let m = x.v.bits();
